@@ -834,6 +834,12 @@ func (c *rcluster) procOf(ids []string) int64 {
 	return n
 }
 
+func dbg(format string, a ...any) {
+	if logOut != nil {
+		fmt.Fprintf(logOut, time.Now().Format("15:04:05.000 ")+"HARNESS "+format+"\n", a...)
+	}
+}
+
 func (c *rcluster) waitEv(from int, d time.Duration, pred func(ev) bool) bool {
 	_, _, ok := c.ev.wait(from, d, pred)
 	return ok
@@ -855,6 +861,7 @@ func replayReal(bi int, beh []mbt.Step, in *mbt.Input, res *mbt.Result) {
 
 	for si, s := range beh {
 		res.Steps++
+		dbg("step %d %v", si, s)
 		switch s.Str("a") {
 		case "boot":
 			for i := 0; i < s.Int("workers"); i++ {
@@ -926,7 +933,9 @@ func replayReal(bi int, beh []mbt.Step, in *mbt.Input, res *mbt.Result) {
 	// ---- the recovery the property demands
 	c.releaseAll()
 	before := c.view()
+	dbg("recover")
 	v, ok := c.recover(16)
+	dbg("recovered %v %v", ok, v)
 	if !ok {
 		viol(len(beh), "", "after the faults the job does not get back to Running on live workers although %d live workers keep registering (running=%v assembly %v %v): %s",
 			len(c.liveWorkers()), v.running, v.asmOps, v.asmSrs, c.tail(30))
@@ -1007,7 +1016,9 @@ func (c *rcluster) requireCheckpoint(vp *rview, ticks int) (string, string) {
 			}
 		}
 		from := c.ev.len()
+		dbg("require tick %d", t)
 		had, ret := c.clock.tickTimeout("checkpointing", waitLong)
+		dbg("require tick %d returned %v", t, ret)
 		if !had {
 			return "the job is Running but has no checkpoint ticker", ""
 		}
@@ -1022,6 +1033,9 @@ func (c *rcluster) requireCheckpoint(vp *rview, ticks int) (string, string) {
 		}
 		c.waitEv(from, wait, func(x ev) bool { return x.Kind == "wrote" && x.Id > start })
 		if c.view().newest > start {
+			if len(notes) > 0 && logOut != nil {
+				fmt.Fprintf(logOut, "requireCheckpoint succeeded at tick %d after: %v\n", t, notes)
+			}
 			return "", ""
 		}
 		started := false
